@@ -6,6 +6,7 @@
   library's own signer and compares verdict and stacks after every step with the real interpreter.
 -/
 import GoBT.Interp.Exec
+import GoBT.Interp.FlagLemmas
 namespace GoBT.C06
 open GoBT GoBT.Interp GoBT.Script
 
@@ -245,32 +246,6 @@ theorem encoding_checks_need_flags (env : Env)
     (h3 : hasFlag env.flags fLowS = false) (shf : Nat) (sig pk : Bytes) :
     checkHashTypeEncoding env shf = none ∧ checkSignatureEncoding env sig = none ∧ checkPubKeyEncoding env pk = none := by
   simp [checkHashTypeEncoding, checkSignatureEncoding, checkPubKeyEncoding, h1, h2, h3]
-
-theorem hasFlag_or_self (a f : Nat) : hasFlag (a ||| f) f = true := by
-  simp only [hasFlag, beq_iff_eq]
-  apply Nat.eq_of_testBit_eq; intro i
-  simp only [Nat.testBit_and, Nat.testBit_or]
-  cases a.testBit i <;> cases f.testBit i <;> rfl
-
-theorem hasFlag_or_of (a f g : Nat) (h : hasFlag a g = true) : hasFlag (a ||| f) g = true := by
-  simp only [hasFlag, beq_iff_eq] at h ⊢
-  apply Nat.eq_of_testBit_eq; intro i
-  have := congrArg (·.testBit i) h
-  simp only [Nat.testBit_and] at this
-  simp only [Nat.testBit_and, Nat.testBit_or]
-  cases ha : a.testBit i <;> cases hg : g.testBit i <;> cases f.testBit i <;> simp_all
-
-theorem and_0x40_cases (n : Nat) : n &&& 0x40 = 0 ∨ n &&& 0x40 = 0x40 := by
-  have h6 : n &&& 0x40 = if n.testBit 6 then 0x40 else 0 := by
-    apply Nat.eq_of_testBit_eq; intro i
-    have h2 : (0x40 : Nat) = 2 ^ 6 := rfl
-    simp only [Nat.testBit_and]
-    by_cases hi : i = 6
-    · subst hi; cases n.testBit 6 <;> simp [h2, Nat.testBit_two_pow]
-    · have hz : (0x40 : Nat).testBit i = false := by
-        rw [h2, Nat.testBit_two_pow]; simp; omega
-      cases n.testBit 6 <;> simp [hz]
-  rw [h6]; split <;> simp
 
 /-- **Replay protection**: once FORKID signatures are enabled (which switches strict encoding on, `mkEnv`), a hash
     type without the FORKID bit is a hard failure of the encoding check — for every hash-type byte, whatever the
